@@ -234,12 +234,41 @@ def subset(check, prog):
                       'flattened (x, y, z) axis' % (
                           show(count)[:40] if count is not None else None,
                           show(n)[:80]))
-    rets = [o for o in res.returns if o.value != sym('data')]
-    first = [o for o in res.returns if o.value == sym('data')]
-    check.require(len(first) == 1 and first[0].cond == ((('cmp', 'is', sym('pixels'),
-                                                          NONE), True),),
+    def payload(o):
+        return o.value[1][0] if o.value[0] == 'tuple' and o.value[1] else o.value
+    rets = [o for o in res.returns if payload(o) != sym('data')]
+    first = [o for o in res.returns if payload(o) == sym('data')]
+    check.require(bool(first) and all(
+        (('cmp', 'is', sym('pixels'), NONE), True) in norm_cond(o.cond) for o in first) and
+        any(o.value == sym('data') for o in first),
                   'D2-no-subset', 'make_subset_data(pixels=None)',
                   'returns the data itself when no subset is requested', loc)
+    # The caller that asked for the selection unpacks two values, whatever the
+    # number of pixels: a return that ignores `return_selection` hands
+    # `subset, selection = make_subset_data(image, return_selection=True)` the
+    # image's first two rows (or a ValueError for any other number of rows)
+    flag = sym('return_selection')
+    if any(a.arg == 'return_selection' for a in fd.args.args + fd.args.kwonlyargs):
+        for o in res.returns:
+            pol = [p_ for t_, p_ in norm_cond(o.cond) if t_ == flag]
+            pair = o.value[0] == 'tuple' and len(o.value[1]) == 2
+            if o.value[0] == 'ite' and o.value[1] == flag:
+                good = o.value[2][0] == 'tuple' and len(o.value[2][1]) == 2 and \
+                    o.value[3][0] != 'tuple'
+            elif pol:
+                good = pair == pol[0]
+            else:
+                good = False
+            check.require(good, 'D2-selection-returned',
+                          'make_subset_data return under %s' % (
+                              ' and '.join('%s%s' % ('' if p_ else 'not ', show(t_)[:40])
+                                           for t_, p_ in norm_cond(o.cond)) or 'always'),
+                          'with return_selection the result is (subset, selection), '
+                          'without it the subset alone -- for every number of pixels, '
+                          'None (the whole image) included', loc,
+                          fail_detail='returns %s whatever return_selection says' % (
+                              show(o.value)[:80],) if not pol else
+                          'returns %s' % show(o.value)[:80])
     # What is returned, for an image (grid) and for data that are already a flat
     # subset (what every strategy with `npixels` hands over when the user's data
     # are a subset).  copy_metadata re-indexes a flat result like a flat donor
@@ -567,7 +596,8 @@ def coordinates(check, prog):
     it = Interp(prog, max_depth=1, opaque=[MD + 'copy_metadata', MD + 'flat'])
     res = it.analyze(q)
     rs = sym(fd.args.args[2].arg)
-    pair = [o for o in res.returns if o.value[0] == 'tuple']
+    pair = [o for o in res.returns if o.value[0] == 'tuple' and not (
+        o.value[1] and o.value[1][0] == sym(fd.args.args[0].arg))]
     single = [o for o in res.returns if o.value[0] != 'tuple' and
               o.value != sym(fd.args.args[0].arg)]
     ok = len(pair) == 1 and len(single) == 1 and \
